@@ -4,13 +4,16 @@
 (* every reachable state (depth-bounded); TLC must find a successor for each  *)
 (* (no evaluation error) and the type invariant must hold.                    *)
 EXTENDS Responder, Json
-CONSTANT RMaxDepth
+CONSTANTS RMaxDepth,
+          RProtos,      \* protocols whose messages are offered
+          RCmds         \* commands offered ("hk", "ban", "disconnect-peer", "provide")
 VARIABLE rhist     \* schedule that led here (hidden by VIEW); printed once per cover class, replayed on the real code
 HostOfDef == [p \in Peers |-> 0]      \* all peers behind one IP: the per-IP limit binds
 
-AllMsgs == UNION {{Msg(pr, k) : k \in Kinds[pr] \ {"Propose", "Accept"}} : pr \in Protos}
-           \cup {[Msg("handshake", "Propose") EXCEPT !.peers = V] : V \in {{13, 15}, {15}}}
-           \cup {MsgAccept(13, 1)}
+AllMsgs == UNION {{Msg(pr, k) : k \in Kinds[pr] \ {"Propose", "Accept"}} : pr \in RProtos}
+           \cup (IF "handshake" \in RProtos
+                 THEN {[Msg("handshake", "Propose") EXCEPT !.peers = V] : V \in {{13, 15}, {15}}} \cup {MsgAccept(13, 1)}
+                 ELSE {})
 Open == TLCGet("level") <= RMaxDepth
 RS(e) == RStep(e) /\ rhist' = Append(rhist, e)
 MRInit == RInit /\ rhist = <<>>
@@ -20,10 +23,10 @@ RIoDisconnected == Open /\ \E p \in Peers : RS(RE("disconnected", p, NoMsg))
 RIoError        == Open /\ \E p \in Peers : RS(RE("error", p, NoMsg))
 RIoRecv         == Open /\ \E p \in Peers, m \in AllMsgs : RS(RE("recv", p, m))
 RIoSent         == Open /\ \E p \in Peers, m \in AllMsgs : RS(RE("sent", p, m))
-RCmdHousekeeping == Open /\ RS(RE("hk", 0, NoMsg))
-RCmdBan         == Open /\ \E p \in Peers : RS(RE("ban", p, NoMsg))
-RCmdDisconnect  == Open /\ \E p \in Peers : RS(RE("disconnect-peer", p, NoMsg))
-RCmdProvide     == Open /\ \E p \in Peers, k \in ProvideCmds : RS(RE(k, p, NoMsg))
+RCmdHousekeeping == Open /\ "hk" \in RCmds /\ RS(RE("hk", 0, NoMsg))
+RCmdBan         == Open /\ "ban" \in RCmds /\ \E p \in Peers : RS(RE("ban", p, NoMsg))
+RCmdDisconnect  == Open /\ "disconnect-peer" \in RCmds /\ \E p \in Peers : RS(RE("disconnect-peer", p, NoMsg))
+RCmdProvide     == Open /\ "provide" \in RCmds /\ \E p \in Peers, k \in ProvideCmds : RS(RE(k, p, NoMsg))
 
 RNext == RIoConnected \/ RIoDisconnected \/ RIoError \/ RIoRecv \/ RIoSent \/ RCmdHousekeeping \/ RCmdBan
          \/ RCmdDisconnect \/ RCmdProvide
@@ -32,9 +35,9 @@ RView == r
 \* cover class of a step: event, message kind, outputs, and the situation of the peer before the step
 ROutSig(out) == [i \in DOMAIN out |-> <<out[i].t, out[i].m.proto, out[i].m.kind, out[i].k>>]
 RPeerSig(R, p, pr) == IF p \in DOMAIN R.peers
-                      THEN <<R.peers[p].conn, R.peers[p].viol, p \in R.banned,
+                      THEN <<R.peers[p].conn, R.peers[p].viol, p \in R.banned, Count(R, HostOf[p]), p \in R.accepted,
                              IF pr \in Protos THEN R.peers[p][RF[pr]] ELSE "-">>
-                      ELSE <<"-", p \in R.banned>>
+                      ELSE <<"-", p \in R.banned, IF p \in Peers THEN Count(R, HostOf[p]) ELSE 0>>
 RCoverClass == <<rev'.ev, rev'.m.proto, rev'.m.kind, ROutSig(r'.out), RPeerSig(r, rev'.p, rev'.m.proto)>>
 ASSUME TLCSet(1, {})
 RReport == (RCoverClass \notin TLCGet(1)) =>
